@@ -184,7 +184,7 @@ mod verif_c01_recursive_walker {
         let mut tb = PageTable::new();
         let st = prefill(&mut ta, &mut tb);
         let w: u64 = kani::any();
-        kani::assume(w & P != 0 && w & PS == 0);
+        kani::assume(w != 0 && w & PS == 0); // the crate's notion of an existing entry: any non-zero word (seed C09-r3m3)
         let mut entry = entry_from(w);
         let flags = any_insert_flags();
         let ans: Option<u64> = if kani::any() { Some(kani::any::<u64>() & ADDR) } else { None };
@@ -215,7 +215,7 @@ mod verif_c01_recursive_walker {
         let mut tb = PageTable::new();
         let st = prefill(&mut ta, &mut tb);
         let w: u64 = kani::any();
-        kani::assume(w & P != 0 && w & PS != 0);
+        kani::assume(w & PS != 0); // PRESENT or not: the word is not zero
         let mut entry = entry_from(w);
         let flags = any_insert_flags();
         let mut alloc = OneAlloc { answer: None, calls: 0 };
